@@ -14,6 +14,7 @@ package zvsync
 import (
 	"context"
 	"fmt"
+	"runtime"
 	"runtime/debug"
 	"sort"
 	"strings"
@@ -57,11 +58,12 @@ const (
 	opBroadcast
 	opTimerStop
 	opExit
+	opYield
 )
 
 var opNames = map[opKind]string{opStart: "start", opAccess: "access", opLock: "lock", opRLock: "rlock", opWAnnounce: "wlock-announce",
 	opWAcquire: "wlock-acquire", opWGWait: "wg-wait", opCondWait: "cond-wait", opCondWake: "cond-wake", opSemAcq: "sem-acquire",
-	opWaitCtx: "wait-cancel", opTimer: "timer-fire", opTryLock: "trylock", opTryRLock: "tryrlock", opTrySem: "sem-tryacquire", opExit: "exit"}
+	opWaitCtx: "wait-cancel", opTimer: "timer-fire", opTryLock: "trylock", opTryRLock: "tryrlock", opTrySem: "sem-tryacquire", opExit: "exit", opYield: "poll (blocked channel operation)"}
 
 type req struct {
 	t     *thread
@@ -91,6 +93,8 @@ type thread struct {
 	granted   bool
 	spawned   *thread
 	panicked  bool
+	polled    int  // when this thread last retried a blocked channel operation
+	stale     bool // it has retried since anything else happened
 }
 
 type objState struct {
@@ -151,16 +155,17 @@ func (r *Result) Choices() []int {
 }
 
 type sched struct {
-	ctl     chan req
-	threads []*thread
-	objs    map[unsafe.Pointer]*objState
-	vers    map[uint64]uint64
-	cur     *thread
-	prefix  []int
-	res     *Result
-	trace   bool
-	horizon int
-	steps   int
+	ctl      chan req
+	threads  []*thread
+	objs     map[unsafe.Pointer]*objState
+	vers     map[uint64]uint64
+	cur      *thread
+	prefix   []int
+	res      *Result
+	trace    bool
+	horizon  int
+	steps    int
+	pollTick int
 }
 
 var active *sched
@@ -291,8 +296,17 @@ func (s *sched) nm(o *objState, t *thread) uint64 {
 }
 
 // perform applies the effect of t's pending point operation.
+func (s *sched) clearStale() {
+	for _, o := range s.threads {
+		o.stale = false
+	}
+}
+
 func (s *sched) perform(t *thread) {
 	r := &t.pend
+	if r.op != opYield {
+		s.clearStale()
+	}
 	switch r.op {
 	case opStart:
 		t.h = mix(t.h, 21)
@@ -302,6 +316,11 @@ func (s *sched) perform(t *thread) {
 		if r.write {
 			s.vers[k] = mix(t.h)
 		}
+	case opYield:
+		// a retry that fails changes nothing: the state key stays what it was
+		s.pollTick++
+		t.polled = s.pollTick
+		t.stale = true
 	case opTimer:
 		t.h = mix(t.h, 22)
 	case opWaitCtx:
@@ -436,17 +455,37 @@ func (s *sched) loop() {
 	for {
 		var en []int
 		runningEnabled := false
-		if running != nil && !running.done && !running.timer && s.enabled(running) {
+		if running != nil && !running.done && !running.timer && running.pend.op != opYield && s.enabled(running) {
 			en = append(en, running.id)
 			runningEnabled = true
 		}
 		for _, t := range s.threads {
-			if t.done || t == running || t.timer {
+			if t.done || t == running || t.timer || t.pend.op == opYield {
 				continue
 			}
 			if s.enabled(t) {
 				en = append(en, t.id)
 			}
+		}
+		// Threads polling a blocked channel operation. A poller that has retried since anything else last happened
+		// ("stale") is not offered again: its retry would find the channel as it left it. Fresh pollers come after
+		// the threads that can make progress, least recently polled first. When nothing but stale pollers is left,
+		// nobody will ever move: an armed timer fires, otherwise it is a deadlock.
+		if takeChanProgress() {
+			s.clearStale()
+			if s.cur != nil {
+				s.cur.h = mix(s.cur.h, 31)
+			}
+		}
+		var ps []*thread
+		for _, t := range s.threads {
+			if !t.done && !t.timer && t.pend.op == opYield && !t.stale {
+				ps = append(ps, t)
+			}
+		}
+		sort.SliceStable(ps, func(i, j int) bool { return ps[i].polled < ps[j].polled })
+		for _, t := range ps {
+			en = append(en, t.id)
 		}
 		for _, t := range s.threads { // timers last: the default schedule fires them only when nothing else can run
 			if !t.done && t.timer && s.enabled(t) {
@@ -1131,4 +1170,59 @@ func (p *Pool) Put(v any) {
 	// and a point after the object became available: what the caller does next with the object it
 	// has just given away (nothing, if it is correct) can be overtaken by the next owner
 	call(req{op: opAccess, label: "sync.Pool", write: true})
+}
+
+// ChanYield is the scheduling point of a blocked channel operation that has been turned into a polling loop
+// (engine/instr rewrites send statements; harness consumers poll explicitly). A polling thread is scheduled only
+// when no other thread can make progress.
+func ChanYield() {
+	if current() == nil {
+		runtime.Gosched()
+		return
+	}
+	call(req{op: opYield})
+}
+
+var chanProgress bool
+
+//go:norace
+func takeChanProgress() bool { p := chanProgress; chanProgress = false; return p }
+
+// ChanDone tells the scheduler that a channel operation went through (the pollers' turn counter starts again).
+//
+//go:norace
+func ChanDone() { chanProgress = true }
+
+// Send is `ch <- v` for harness code: a plain send outside exploration, a visible wait inside.
+func Send[T any](ch chan<- T, v T) {
+	if current() == nil {
+		ch <- v
+		return
+	}
+	for {
+		select {
+		case ch <- v:
+			ChanDone()
+			return
+		default:
+			ChanYield()
+		}
+	}
+}
+
+// Recv is `v, ok := <-ch` for harness code.
+func Recv[T any](ch <-chan T) (T, bool) {
+	if current() == nil {
+		v, ok := <-ch
+		return v, ok
+	}
+	for {
+		select {
+		case v, ok := <-ch:
+			ChanDone()
+			return v, ok
+		default:
+			ChanYield()
+		}
+	}
 }
